@@ -1,23 +1,20 @@
-import YaclibModel.Proofs.CoSharedMutex
+import YaclibModel.Proofs.CoSharedMutexS_uUnlockW_1
+import YaclibModel.Proofs.CoSharedMutexS_uUnlockW_2
+import YaclibModel.Proofs.CoSharedMutexS_uUnlockW_3
+import YaclibModel.Proofs.CoSharedMutexS_uUnlockW_4
 namespace Yaclib.CoSharedMutex
 
-set_option maxHeartbeats 4000000 in
 theorem inv_uUnlockW {cfg : Cfg} {s : State} (hi : Inv cfg s) (c : Cid) (b : Branch) (n : Cid) (rest : List Cid) (h : s.pc c = .uUnl b) (hs : s.spin = .held c) (hb : needsWriter b = true) (hq : s.WQ = n :: rest) :
     Inv cfg ((doUUnlock s c b n rest)) := by
-  have ⟨hn, hnr⟩ := head_pc_wq hi hq
-  have hmem : ∀ x, x ∈ s.Q ↔ s.pc x = .rparked := fun x => mem_iff_of_count (hi.l_q x)
-  have hst := hi.st_sw c
-  have hlq := hi.l_qsize
-  cases b with
-  | runWriter =>
-      cases hi
-      cases hf : s.cfg.fifo <;> simp only [doUUnlock, hf, Bool.false_eq_true, ↓reduceIte] <;> sm_auto [List.count_le_length]
-  | stored sw =>
-      have h2w := hi.j2w c ((hi.l_excl c).mp (by rw [h]; rfl))
-      have h2 := hi.j2 (by rw [(hi.l_excl c).mp (by rw [h]; rfl)]; simp)
-      cases hi
-      cases hf : s.cfg.fifo <;> simp only [doUUnlock, hf, Bool.false_eq_true, ↓reduceIte] <;> sm_auto [List.count_le_length]
-  | readersPass sr => simp [needsWriter] at hb
-  | passOnly sr => simp [needsWriter] at hb
+  have hbd : b = .runWriter ∨ (∃ sw, b = .stored sw) ∨ (∃ sr, b = .readersPass sr) ∨ (∃ sr, b = .passOnly sr) := by cases b <;> simp
+  rcases hbd with hbr | ⟨sw, hbr⟩ | ⟨sr, hbr⟩ | ⟨sr, hbr⟩
+  · cases hf : s.cfg.fifo
+    · exact inv_uUnlockW_1 hi c b n rest h hs hb hq hbr hf
+    · exact inv_uUnlockW_2 hi c b n rest h hs hb hq hbr hf
+  · cases hf : s.cfg.fifo
+    · exact inv_uUnlockW_3 hi c b n rest h hs hb hq sw hbr hf
+    · exact inv_uUnlockW_4 hi c b n rest h hs hb hq sw hbr hf
+  · rw [hbr] at hb; simp [needsWriter] at hb
+  · rw [hbr] at hb; simp [needsWriter] at hb
 
 end Yaclib.CoSharedMutex
